@@ -74,7 +74,13 @@ class MQTTTransport(Transport):
                 qos = 0
             tasks.append(self._subscribe(topic, qos))
 
-        await asyncio.gather(*tasks)
+        try:
+            await asyncio.gather(*tasks)
+        except BaseException:
+            # Don't leave the connection and its receive task behind
+            # when the transport failed to connect.
+            await self._disconnect()
+            raise
 
     async def disconnect(self) -> None:
         """Disconnect the transport."""
